@@ -213,7 +213,8 @@ def _pin_rule(chk, prog):
 def run(chk):
     prog = Program.load("default")
     _pin_rule(chk, prog)
-    _fd_rule(chk, prog)
+    from rules import c20_fd
+    c20_fd.run(chk, prog)
     _pending_rule(chk, prog)
     _loopdone_rule(chk, prog)
 
